@@ -13,6 +13,7 @@ import (
 	"reflect"
 	"strconv"
 	"strings"
+	"sync"
 	"unicode"
 	"unicode/utf8"
 
@@ -112,6 +113,7 @@ func planBlocks(c *core.Ctx) []pblock {
 		gens("mut", c.Q(200000, 5000000), 4000, 0, 4)
 		gens("prefix", c.Q(1500, 30000), 100, 0, 600)
 		gens("raw", c.Q(100000, 3000000), 5000, 0, 1)
+		gens("concurrent", c.Q(24, 240), 1, 0, 4000)
 	case "C16":
 		if T {
 			classes(5, 6)
@@ -173,7 +175,7 @@ func shardPlan(bs []pblock, fast bool) [][]pblock {
 var parseRules = map[string]string{
 	"C06": "abstract spokfiles from the generator (0-6 statements, 0-4 deps/outs/args, 0-5 commands) each written in N random admissible layouts, plus every layout (bounded product of the layout decisions) of small structures; a case = one (structure, layout) text parsed by the real parser and compared with the structure; non-trivial = distinct structures with >=1 statement whose layouts all parsed",
 	"C07": "every string over two 25-symbol class alphabets and one 14-symbol statement-level alphabet up to the tier's length (4/6 resp. 5/7 symbols), generated programs in 2 layouts, seeded mutants of the repository's spokfile/test inputs, comment-position programs; a case = one input run through parse -> format -> parse; non-trivial = distinct inputs (by hash) that parse to >=1 node and were therefore judged",
-	"C08": "the inputs of C07 plus every byte-prefix of generated programs and raw byte strings with 30% bytes >= 0x80; each input parsed twice in a child worker (race build; bulk enumeration on the plain build); non-trivial = distinct inputs that produce a syntax error whose line/context were checked, or a tree",
+	"C08": "the inputs of C07 plus every byte-prefix of generated programs and raw byte strings with 30% bytes >= 0x80; each input parsed twice in a child worker (race build; bulk enumeration on the plain build); batches of mutants are also parsed by 8 goroutines at once and compared with their sequential results; non-trivial = distinct inputs that produce a syntax error whose line/context were checked, or a tree",
 	"C11": "same inputs as C07; a case = parse -> format -> parse -> format, compared byte for byte; non-trivial = distinct inputs that parse to >=1 node and whose formatted text re-parses",
 	"C15": "same inputs as C07 plus a generator placing comments in every syntactic position; non-trivial = distinct inputs that parse and contain >=1 non-empty comment or docstring",
 	"C16": "every string over the class alphabets up to the tier's length, generated programs in 16 layouts (LF/CRLF/mixed, tabs, multi-byte), mutants, raw bytes; a case = one token stream read to its first EOF/ERROR and checked token by token against the input; non-trivial = distinct inputs that yield >=2 tokens",
@@ -460,6 +462,49 @@ func (w *pworker) runBlock(b pblock) {
 	case "raw":
 		for i := 0; i < b.Count; i++ {
 			w.input(gen.RawBytes(r), nil)
+		}
+	case "concurrent":
+		// the same inputs parsed by several goroutines at once must give what they give one at a time
+		m := gen.NewMutator(r, w.seeds)
+		var inputs []string
+		for len(inputs) < 400 {
+			inputs = append(inputs, m.Next())
+		}
+		seq := make([]string, len(inputs))
+		for i, x := range inputs {
+			seq[i] = parseOutcome(x)
+		}
+		idx := w.curIdx
+		w.curIdx++
+		if !w.wl.Begin(w.curBlk, idx, func() any { return mkCase("concurrent", strings.Join(inputs[:3], "\x00"), w.curBlk) }) {
+			return
+		}
+		var wg sync.WaitGroup
+		var mu sync.Mutex
+		var firstBad *core.Violation
+		for g := 0; g < 8; g++ {
+			wg.Add(1)
+			go func(g int) {
+				defer wg.Done()
+				for k := 0; k < len(inputs); k++ {
+					i := (k*7 + g*53) % len(inputs)
+					if got := parseOutcome(inputs[i]); got != seq[i] {
+						mu.Lock()
+						if firstBad == nil {
+							cs := mkCase("concurrent", inputs[i], w.curBlk)
+							firstBad = &core.Violation{Property: "C08", Clause: "deterministic", Key: "concurrent:" + strconv.Quote(inputs[i]),
+								Detail: fmt.Sprintf("parsed alone: %s; parsed while other goroutines were parsing: %s (input %s)", core.Trunc(seq[i], 200), core.Trunc(got, 200), core.Trunc(strconv.Quote(inputs[i]), 200)), Case: core.JSON(cs)}
+						}
+						mu.Unlock()
+					}
+				}
+			}(g)
+		}
+		wg.Wait()
+		w.res.Evaluations += int64(8 * len(inputs))
+		w.res.Count("concurrent_parses", int64(8*len(inputs)))
+		if firstBad != nil {
+			w.res.Violate(*firstBad)
 		}
 	}
 }
@@ -1054,4 +1099,13 @@ func fmtBinarySample(c *core.Ctx) *core.ShardResult {
 		total.Merge(o)
 	}
 	return total
+}
+
+// parseOutcome is a comparable summary of one parse: the error text or the formatted tree.
+func parseOutcome(x string) string {
+	t, err := parser.New(x).Parse()
+	if err != nil {
+		return "error: " + err.Error()
+	}
+	return "tree: " + t.String()
 }
